@@ -15,8 +15,8 @@
 
    NOT proved here (checked on every generated case by the oracle in harness/c06.py only): liveness (the
    caller IS resumed when the callee finishes), and that the result is delivered only after the last
-   handler step of the callee.  The full "no residue at quiescence" statement is false for the code as it
-   is (C06_genraise_refuted, open finding C06-gen-raise). *)
+   handler step of the callee.  So "no residue at quiescence" is proved in the form C06_no_residue (nothing is
+   left once every wait has been resumed or has timed out); that every wait does get there is the unproved part. *)
 From Coq Require Import List ZArith Bool.
 From Circ Require Import Model.KTasks Proofs.KTasksP.
 Import ListNotations.
@@ -76,16 +76,6 @@ Theorem C06_wait_task : forall p g scheds roots n t sid, let w := run p g scheds
 Proof. exact wait_task_flagged. Qed.
 Print Assumptions C06_wait_task.
 
-(* The full statement ("when the system is quiescent again no temporary handlers remain, the caller has been resumed")
-   is refuted for the code as it is: the callee's generator handler raises after its first yield; the world is quiescent
-   (no task, empty queue, nothing crashed), <name>_done is still installed and the caller was never resumed. *)
-Theorem C06_genraise_refuted :
-  let w := run prog_genraise false [] [(O, O)] 12 in
-  tasks w = [] /\ queue w = [] /\ ths w = [THDone O] /\ bad w = false /\
-  exists st, nth_error (wsts w) O = Some st /\ s_resumes st = O.
-Proof. exact genraise_residue. Qed.
-Print Assumptions C06_genraise_refuted.
-
 (* non-vacuity: a call that returns (resumed once with the callee's two values) and a call that times out
    (timeout 1: two generate_events dispatches counted, TimeoutError delivered once) *)
 Example C06_ex_ok :
@@ -100,4 +90,21 @@ Example C06_ex_tmo :
   bad w = false /\ ths w = [] /\ tasks w = [] /\
   map (fun s => (s_ph s, s_resumes s, s_timedout s, s_tmo0 s, s_ticks s)) (wsts w) = [(Dead, 1%nat, true, 1, 2%nat)] /\
   In (LTmo 1 0 0) (wlog w).
+Proof. vm_compute. repeat split. tauto. Qed.
+
+(* a callee whose generator handler raises after its first yield: the caller is resumed once, with the error *)
+Example C06_ex_genraise :
+  let w := run prog_genraise false [] [(O, O)] 12 in
+  bad w = false /\ ths w = [] /\ tasks w = [] /\
+  map (fun s => (s_ph s, s_resumes s)) (wsts w) = [(Dead, 1%nat)] /\
+  In (LRes 1 0 0 [209; -1] true) (wlog w).
+Proof. vm_compute. repeat split. tauto. Qed.
+
+(* a handler that raises right after being resumed from its own call: its event still finishes, its caller is resumed *)
+Example C06_ex_raise_resumed :
+  let w := run prog_raise_resumed false [] [(O, O)] 14 in
+  bad w = false /\ ths w = [] /\ tasks w = [] /\
+  map (fun e => e_waiting e) (evs w) = [0; 0; 0; 0] /\
+  map (fun s => (s_ph s, s_resumes s)) (wsts w) = [(Dead, 1%nat); (Dead, 1%nat)] /\
+  In (LRes 1 0 0 [-1] true) (wlog w).
 Proof. vm_compute. repeat split. tauto. Qed.
